@@ -286,8 +286,11 @@ def main(argv):
         print("  occurrences:", v["count"])
         rc = 1
     if len(new) > 5:
-        print("  ... and %d further distinct violation signatures"
+        print("  ... and %d further distinct violation signatures:"
               % (len(new) - 5))
+        for v in new[5:40]:
+            print("    sig: %s | %s" % (jdump(v["sig"]),
+                                       v["msg"].split("\n")[0][:160]))
 
     wall = time.time() - t0
     level = getattr(mod, "LEVEL", "exploration")
